@@ -5,6 +5,10 @@ import (
 	"context"
 	"encoding/binary"
 	"fmt"
+	"os"
+	"os/exec"
+	"path/filepath"
+	"sort"
 	"strings"
 
 	"github.com/quay/claircore"
@@ -692,4 +696,108 @@ func runGobin(r *hx.Run, rnd *hx.Rand, cfg hx.Config) {
 func notGoELF() []byte {
 	b := goExe(goExeShape{format: "elf", is64: true, etype: 2, section: false, inline: true}, goInfo{goVersion: "go1.21.0"})
 	return bytes.ReplaceAll(b, []byte(goMagic), []byte("\xff Go buildXXX:"))
+}
+
+// runGobinReal: executables built by the local Go toolchain itself (offline: generated modules
+// whose dependencies are local replace directives), as a check of the harness's own writer of
+// build information against the real linker: native ELF in the quick tier, PIE, 32-bit,
+// big-endian and PE targets in the thorough tier.
+func runGobinReal(r *hx.Run, rnd *hx.Rand, cfg hx.Config) {
+	goBin, err := exec.LookPath("go")
+	if err != nil {
+		r.Count("gobin:real:no-toolchain")
+		return
+	}
+	verOut, err := exec.Command(goBin, "env", "GOVERSION").Output()
+	if err != nil {
+		r.Count("gobin:real:no-toolchain")
+		return
+	}
+	goVersion := strings.TrimSpace(string(verOut))
+	type target struct{ goos, goarch, mode string }
+	targets := []target{{"", "", "exe"}}
+	if cfg.Thorough() {
+		targets = append(targets, target{"", "", "pie"}, target{"linux", "386", "exe"}, target{"linux", "s390x", "exe"}, target{"windows", "amd64", "exe"}, target{"linux", "arm64", "exe"})
+	}
+	for ti, t := range targets {
+		if r.Stop() {
+			return
+		}
+		dir := filepath.Join(cfg.OutDir, fmt.Sprintf("gobuild-%d", ti))
+		os.RemoveAll(dir)
+		defer os.RemoveAll(dir)
+		mod := "example.com/verif/" + randFrom(rnd, "abcdefghijklmnopqrstuvwxyz", 3+rnd.Intn(6))
+		nd := rnd.Intn(4)
+		var gomod, mainsrc strings.Builder
+		gomod.WriteString("module " + mod + "\n\ngo 1.21\n\n")
+		mainsrc.WriteString("package main\n\nimport (\n")
+		want := []goTuple{{name: "stdlib", version: strings.TrimPrefix(goVersion, "go")}, {name: mod, version: "(devel)"}}
+		if pv, err := gobin.ParseVersion(strings.TrimPrefix(goVersion, "go")); err == nil {
+			want[0].kind, want[0].v1, want[0].v2, want[0].v3 = pv.Kind, pv.V[1], pv.V[2], pv.V[3]
+		}
+		var uses []string
+		depNames := make([]string, nd)
+		for d := 0; d < nd; d++ {
+			depNames[d] = fmt.Sprintf("example.org/%s/dep%d", randFrom(rnd, "abcdefghijklmnopqrstuvwxyz", 4), d)
+		}
+		sort.Strings(depNames) // the build info lists dependencies by module path
+		for d, dn := range depNames {
+			local := fmt.Sprintf("./dep%d", d)
+			gomod.WriteString(fmt.Sprintf("require %s v0.0.0\n\nreplace %s => %s\n\n", dn, dn, local))
+			os.MkdirAll(filepath.Join(dir, local), 0o755)
+			os.WriteFile(filepath.Join(dir, local, "go.mod"), []byte("module "+dn+"\n\ngo 1.21\n"), 0o644)
+			os.WriteFile(filepath.Join(dir, local, "x.go"), []byte(fmt.Sprintf("package dep%d\n\nvar X = %d\n", d, d)), 0o644)
+			mainsrc.WriteString(fmt.Sprintf("\td%d %q\n", d, dn))
+			uses = append(uses, fmt.Sprintf("d%d.X", d))
+			want = append(want, goTuple{name: local, version: "(devel)"})
+		}
+		mainsrc.WriteString(")\n\nfunc main() { println(0")
+		for _, u := range uses {
+			mainsrc.WriteString(", " + u)
+		}
+		mainsrc.WriteString(") }\n")
+		if nd == 0 {
+			mainsrc.Reset()
+			mainsrc.WriteString("package main\n\nfunc main() { println(0) }\n")
+		}
+		os.MkdirAll(dir, 0o755)
+		os.WriteFile(filepath.Join(dir, "go.mod"), []byte(gomod.String()), 0o644)
+		os.WriteFile(filepath.Join(dir, "main.go"), []byte(mainsrc.String()), 0o644)
+		cmd := exec.Command(goBin, "build", "-buildvcs=false", "-buildmode="+t.mode, "-o", "app.bin", ".")
+		cmd.Dir = dir
+		cmd.Env = append(os.Environ(), "GOFLAGS=-mod=mod", "GOPROXY=off", "GOSUMDB=off", "GOTOOLCHAIN=local", "CGO_ENABLED=0")
+		if t.goos != "" {
+			cmd.Env = append(cmd.Env, "GOOS="+t.goos, "GOARCH="+t.goarch)
+		}
+		if out, err := cmd.CombinedOutput(); err != nil {
+			r.Count("gobin:real:build-failed:" + t.goos + "/" + t.goarch + "/" + t.mode)
+			_ = out
+			continue
+		}
+		data, err := os.ReadFile(filepath.Join(dir, "app.bin"))
+		if err != nil {
+			continue
+		}
+		p := "usr/local/bin/realapp"
+		got, res := scanGobin([]ent{{path: p, data: data, mode: 0o755}})
+		r.Case(fmt.Sprintf("gobin-real %s/%s/%s", t.goos, t.goarch, t.mode), true)
+		r.Count("gobin:real:built:" + t.goos + "/" + t.goarch + "/" + t.mode)
+		wit := fmt.Sprintf("an executable built by %s (GOOS=%q GOARCH=%q -buildmode=%s) from module %s with %d dependencies replaced by local directories", goVersion, t.goos, t.goarch, t.mode, mod, nd)
+		if res != "ok" || len(got) != len(want) {
+			r.Fail("", fmt.Sprintf("gobin: %s, %d packages reported, the build lists %d: %s: %v", res, len(got), len(want), wit, got))
+			continue
+		}
+		ok := true
+		for k, w := range want {
+			w.db, w.path = "go:"+p, p
+			if got[k] != w {
+				ok = false
+				r.Fail("", fmt.Sprintf("gobin: entry %d reported as %+v, the build states %+v: %s", k, got[k], w, wit))
+				break
+			}
+		}
+		if ok {
+			r.Count("gobin:real:exact")
+		}
+	}
 }
